@@ -3,6 +3,7 @@ mod common;
 mod p_bytes;
 mod p_derived;
 mod p_evo;
+mod p_iso;
 mod p_misc;
 mod p_tables;
 mod p_varint;
@@ -34,6 +35,8 @@ fn main() {
             Some(i) => p_bytes::child(&prop, &tier, only, &args[i + 1]),
             None => p_bytes::run(&prop, &tier, only),
         },
+        "C18" => p_iso::run(&tier, only),
+        "C18-seq" => p_iso::seq_child(args.get(2).map(|s| s.as_str()).unwrap_or("")),
         "C09" => p_tables::run_c09(&tier, only),
         "C10" => p_tables::run_c10(&tier, only),
         "C11" => p_varint::run(&tier, only),
